@@ -402,6 +402,8 @@ def molecule_plan(chk: Check):
     add("df", "LiH", df=True, nfrozen=1, chol_cut=1e-8)
     add("df", "OH", spin=1, mf="rohf", df=True, nfrozen=1, trial="uhf", walker_type="uhf", chol_cut=1e-8)
     add("custom-basis", "OH", spin=1, mf="rohf", trial="uhf", walker_type="uhf", basis_coeff="lowdin", chol_cut=1e-5)
+    # a very tight threshold on a system that needs Cholesky vectors below 1e-6: "within the Cholesky threshold" then means 2e-8
+    add("rhf", "LiH", basis="6-31g", chol_cut=1e-9)
     for i_, sp_ in enumerate(S):
         sp_["prep_twice"] = i_ % 2 == 0
     if chk.tier == "quick":
